@@ -157,6 +157,18 @@ def _free_names(chk: Check, label: str, py, pfile: str):
                         local.add(arg.arg)
                 if isinstance(node, ast.NamedExpr) and isinstance(node.target, ast.Name):
                     local.add(node.target.id)
+            # the generator binds an item to a variable only when the action uses that name: a binding the action does not use is
+            # a leftover of a hand edit (regenerating emits the bare call, so the shipped method differs from the generated one)
+            if label == "xonsh" and not getattr(a, "default_action", False):
+                used_names = {n.id for n in ast.walk(a.action) if isinstance(n, ast.Name)}
+                for ni in a.items:
+                    base_name = re.sub(r"_\d+$", "", ni.name) if ni.name else None     # `a_1`: a second item captured as `a` (dedupe)
+                    if ni.name and ni.name != "cut" and ni.name not in used_names and base_name not in used_names:
+                        chk.count("G10-unused-binding")
+                        chk.fail("G10-unused-binding", f"{label}::{r.name}#alt{i}:{ni.name}", str(a.pos),
+                                 f"`{r.name}` binds `{ni.name}` but its action does not use it: the generator only binds the names an "
+                                 f"action uses, so this method is not what the generator emits for the grammar (a hand edit of the "
+                                 f"return line only)")
             for node in ast.walk(a.action):
                 if isinstance(node, ast.Name) and isinstance(node.ctx, ast.Load):
                     chk.count(f"{label}.action_names")
